@@ -622,6 +622,33 @@ def _unify(a, b):
     return a, b
 
 
+class _IntName(type):
+    """stands in for the *name* `int` in the server modules' globals: `int(x)` on a symbolic number
+    stays symbolic (the builtin must return a genuine int and would have to concretise), everything
+    else is the builtin; isinstance / issubclass against the name keep working"""
+
+    def __instancecheck__(cls, x):
+        return isinstance(x, int)
+
+    def __subclasscheck__(cls, c):
+        return issubclass(c, int)
+
+    def __call__(cls, *a, **k):
+        if a and isinstance(a[0], SNum) and not k and len(a) == 1:
+            z = a[0].z
+            if z3.is_int(z):
+                return a[0]
+            # truncation toward zero
+            return SNum(z3.If(z >= 0, z3.ToInt(z), -z3.ToInt(-z)))
+        if a and isinstance(a[0], SStr):
+            raise Unsupported("int() of a client string")
+        return int(*a, **k)
+
+
+class IntName(metaclass=_IntName):
+    pass
+
+
 class SNum:
     """symbolic number: z3 Int (ids, counters, blur interval) or Real (timestamps)."""
     __slots__ = ("z",)
@@ -716,7 +743,15 @@ class SNum:
         return SNum(b) % self
 
     def __round__(self, *a):
-        raise Unsupported("round() of a symbolic number")
+        # round(x) with no digits: nearest integer, ties to even (what float.__round__ does)
+        if a and a[0] is not None:
+            raise Unsupported("round(x, ndigits) of a symbolic number")
+        z = self.z
+        if z3.is_int(z):
+            return self
+        f = z3.ToInt(z + z3.RealVal("1/2"))
+        tie = (z + z3.RealVal("1/2")) == z3.ToReal(f)
+        return SNum(z3.If(z3.And(tie, f % 2 == 1), f - 1, f))
 
     def __trunc__(self):
         raise Unsupported("trunc() of a symbolic number")
